@@ -619,6 +619,12 @@ func runJobCheck(run *ev.Run, kind string, jobs []interface{}, rule string) int 
 			run.Violation("panic/"+kind+"/"+firstLine(r.Panic), map[string]interface{}{"job": json.RawMessage(jb), "panic": tailStr(r.Panic, 6000), "replay": mkReplay(kind, jobs[i])})
 			continue
 		}
+		if r.Err == "worker died" {
+			if sig, ok := processDeath(r.Dump); ok {
+				run.Violation(sig, map[string]interface{}{"job": json.RawMessage(jb), "stderr": headStr(r.Dump, 6000), "replay": mkReplay(kind, jobs[i])})
+				continue
+			}
+		}
 		if r.Err != "" {
 			fmt.Printf("HARNESS ERROR job %s: %s\n%s\n", jb, r.Err, tailStr(r.Dump, 3000))
 			run.NotExhaustive("harness error: " + r.Err)
